@@ -100,9 +100,9 @@ ADD_TEXT = {
  'C06': 'TcpConnection and TcpServer: the buffered descriptor / the connection object is disabled, detached and destroyed only by a posted task, exactly once; a peer close is reported exactly once; sends after the close are refused.',
  'C07': 'hasRead / hasWritten are proved for ANY size (no wrap of index + size).',
  'C09': 'Sink (filter, handleLog, setLevel / unsetLevel with the filter configuration guarded by the sink lock, cached timestamp string, enable/disable order), the AsyncSink back-end re-framing loop and the record formatting (every append inside its source object) are under contract as well.',
- 'C11': 'Module::~Module: cleanup first, then every child destroyed exactly once, in registration order.',
+ 'C11': 'Module::~Module: cleanup first, then every child destroyed exactly once, in registration order. Module::addAs: registered once through add() with the caller\'s required flag.',
  'C12': 'Server::Impl::commitRespond (order, once, nothing after the closing response) and Server::Impl::onTcpReceived (one context per request, the closing request is the last one, the read side stays open while a response is owed, clean drop on parse failure), Server::Impl::onTcpSendCompleted (closed exactly when the response to the closing request has gone out); the parser contract also states that a declared body is part of what is consumed and that a body length declared in one segment is still in force when parsing resumes in the next.',
- 'C13': 'Terminal::Impl::onRecvString (scanner restarted per segment and per key, every completed key dispatched to exactly its editor action once). Telnetd::Impl::onTcpReceived framing loop: bounds of every byte looked at, complete-negotiation-or-wait, progress (bounded domain: 64 pending bytes).',
+ 'C13': 'Terminal::Impl::onRecvString (scanner restarted per segment and per key, every completed key dispatched to exactly its editor action once). Telnetd::Impl::onTcpReceived framing loop: bounds of every byte looked at, complete-negotiation-or-wait, progress (bounded domain: 64 pending bytes). Terminal::Impl::executeCmd: handlers are called only with a non-empty word list, at most one per line.',
  'C14': 'Rpc::request / onRecvRespond / onRequestTimeout: one fresh id per request for callback, deadline and message; an outstanding id is completed exactly once, unknown / duplicate / late ids are ignored. Proto::onRecvJson: no exception for any JSON content, at most one callback per message, recursion into batch elements bounded by one level.',
  'C15': 'UdpSocket::onSocketEvent hands the receive callback only bytes that recvfrom stored; Deserializer::checkSize / setEndian are under contract.',
  'C19': 'HexStrToRawData(text, buffer, capacity): writes inside the stated capacity, reads inside the text, size rule, invalid digit -> exception (character values abstract).',
